@@ -854,7 +854,8 @@ def _u1_initial_cell(repo: Repo, f: Func, roles, res: RuleResult):
 
 def rule_E3(repo: Repo) -> RuleResult:
     res = RuleResult("E3", "time-weighted EMA: whenever the state is decayed by the elapsed time the group's clock is advanced")
-    f = repo.func("emas", "_ema_grouped_timed")
+    from .canon import inline_cell_reads
+    f = inline_cell_reads(repo.func("emas", "_ema_grouped_timed"))
     roles = infer_roles(f)
     k = next(iter(roles.code_vars))
     loop = [n for n in walk_no_nested(f.node) if isinstance(n, ast.For)][-1]
